@@ -98,6 +98,13 @@ mod utf32_str;
 #[cfg(test)]
 mod tests;
 
+// verification hook: harnesses live outside the repository and are compiled in-crate
+#[cfg(nucleo_verif)]
+#[allow(dead_code, unused_imports, unused_macros, unexpected_cfgs)]
+mod verif {
+    include!(concat!(env!("NUCLEO_VERIF_DIR"), "/matcher/mod.rs"));
+}
+
 pub use crate::config::Config;
 pub use crate::utf32_str::{Utf32Str, Utf32String};
 
